@@ -99,7 +99,7 @@ def rnd_time(r, form):
 
 
 FOOTER_FORMS = ["M", "J", "N", "mixed", "neg-time", "big-time", "edge-time", "south", "neg-save", "allyear",
-                "std-only", "empty", "sec-offsets", "M", "mixed", "v1"]
+                "std-only", "empty", "sec-offsets", "M", "mixed", "v1", "year-edge", "year-edge", "year-edge"]
 
 
 def footer_ok(p):
@@ -143,6 +143,18 @@ def gen_footer(r, form, used):
         if form == "allyear":
             x = 86400 + save
             footer += ",0/0,J365/" + fmt_hms(x)
+        elif form == "year-edge":
+            # one rule transition crosses the calendar-year boundary: early-January date with a negative time, or a
+            # late-December date with a time beyond 24 h; the other rule sits mid-year
+            if r.random() < 0.5:
+                d1 = r.choice(["J1", "0", "1", "J2", "M1.1.%d" % r.randrange(0, 7)]) + "/" + fmt_hms(-r.randrange(1, 100) * 1800)
+            else:
+                d1 = r.choice(["J365", "364", "J364", "M12.5.%d" % r.randrange(0, 7)]) + "/" + fmt_hms(r.randrange(49, 330) * 1800)
+            d2 = r.choice(["J180", "M7.1.0", "170", "M6.3.2/3"])
+            pair = [d1, d2]
+            if r.random() < 0.35:
+                pair.reverse()  # mostly the crossing rule is the start of DST (a gap when SAVE is positive)
+            footer += "," + pair[0] + "," + pair[1]
         else:
             dform = {"M": ["M", "M"], "J": ["J", "J"], "N": ["N", "N"]}.get(form)
             if dform is None:
